@@ -20,7 +20,8 @@ package mqttproxy
 //
 // Stubbed: storage (c16Store: map + delete-watch with etcd semantics, optional
 // latency/gates and injected errors), the MQTT clients (raw paho packet codec
-// over simnet connections), no pipelines (Spec.Rules empty).
+// over simnet connections), pipelines (stub MuxMapper, see the extension below;
+// Spec.Rules is empty in the classic configuration).
 //
 // Reference model (written from the property statement and MQTT 3.1.1 §3.1.2.4
 // / §4.7, not from the implementation): per contested client id one session =
@@ -72,8 +73,8 @@ package mqttproxy
 //   * QoS1 publishes are only generated when every subscription is QoS1 (the
 //     QoS-downgrade enumeration is C15's subject); QoS2 never.
 //   * handshake aborts (connection dropped between CONNECT and CONNACK), two
-//     CONNECTs of the same id in flight at once, admin deletes racing scripted
-//     connects, watch-channel breakage (reconnectWatcher) are not generated.
+//     CONNECTs of the same id in flight at once, admin deletes of the contested
+//     id racing scripted connects are not generated.
 //   * "admin delete disconnects that client" is asserted only if the session
 //     key existed in the store at that moment and the delete did not fail; TCP
 //     closure is required only after the client's next packet.
@@ -116,6 +117,55 @@ package mqttproxy
 //   C16.invariant.registration-missing, C16.admin-delete.*, C16.bystander-*,
 //   C16.connect-dropped/-refused, C16.no-response.<what>, C16.panic.handleConn
 //
+// Extension "ordinary configurations and inputs" (about half of the runs; the
+// other half keeps the classic configuration):
+//   * contested client id drawn from c16IDs (path-like, blanks, digits, words
+//     YAML gives a meaning to - the stored session is YAML -, non-ASCII, long);
+//     bystander ids that extend the contested id; the stored session of an
+//     offline persistent client "<id>zz".
+//   * Spec options: topicCacheSize 1/2/7, maxAllowedConnection and
+//     connectionLimit/clientPublishLimit set but never binding, rules (pipelines)
+//     for Connect (authenticates the password), Subscribe, Unsubscribe,
+//     Disconnect, Publish through a stub MuxMapper whose handlers let everything
+//     pass and may take up to 300 ms (also under the broker lock, as in
+//     deleteSession -> Client.close -> Disconnect pipeline).
+//   * CONNECT as MQTT 3.1 (MQIsdp/3), with user name/password, with a will
+//     message; one SUBSCRIBE with a QoS per filter (0/1/2); the client publishes
+//     (QoS0/1, PUBACK awaited).
+//   * connection attempts with the contested id that the broker has to refuse
+//     (wrong password, protocol level 5, password without user name, first packet
+//     not CONNECT, half a CONNECT): not a takeover - the invariant forbids their
+//     registration (C16.refused-connection-registered), an accepting CONNACK is
+//     C16.intruder-accepted, and the survivor's checks run as usual.
+//   * admin DELETE of sessions of other ids while the script runs (nobody's id,
+//     "<id>zz", bystanders): the contested id is judged as usual, a deleted
+//     bystander is not judged; after the final admin DELETE of the contested id
+//     the other ids must still be registered (C16.admin-delete.other-client-affected).
+//   * the delete watch breaks (cluster.watcher closes its channel when etcd
+//     cancels the watch) and Broker.reconnectWatcher re-establishes it: a client
+//     whose session key was in the store when the broker listed the keys must
+//     stay connected (C16.watch-reconnect.healthy-client-closed, found on the
+//     unchanged tree and repaired in /repo 1ae7e3f: the listing is keyed by store
+//     keys, the loop looked up bare client ids, every client was closed); an id
+//     whose key was missing then (deleted, or not stored yet) is not judged.
+//     Deletions while the watch is down produce no event.
+//   * F5: a session holding QoS0 and QoS>=1 filters gets a second probe round
+//     with QoS1 messages: every firm filter subscribed with QoS>=1 must deliver
+//     (C16.subscription-qos-lost, C16.reconnect.subscription-qos-not-restored);
+//     inherited filters count only if the id never asked for them with QoS0
+//     (store lag may restore an older snapshot); where only QoS0 filters match
+//     both outcomes are accepted.
+//   * F6 slow consumer (all-QoS1 runs): 55-100 QoS1 messages are published while
+//     the survivor does not read for a second (more than the 50-slot queue, padded
+//     also more than the socket buffer); once it reads and acknowledges again all
+//     of them must arrive (C16.qos1-messages-never-delivered,
+//     C16.reconnect.restored-session-never-redelivers when its session came from
+//     the store). Link latency is capped at 5 ms in these runs and the padding is
+//     dropped on tiny windows (resend every 200 ms against a link slower than that
+//     is the congestion collapse mentioned above).
+//   * the CONNACK session-present flag is compared with MQTT 3.1.1 §3.2.2.2 as a
+//     probe only (easegress sends the clean flag: observation, not asserted).
+//
 // Determinism notes: every client write is preceded by an odd number of
 // nanoseconds of sleep (distinct per client); connection handlers run as named
 // tasks; the handler-return record passes a gate first; nothing is recorded
@@ -152,8 +202,8 @@ import (
 const (
 	c16Timeout = 40 * time.Minute
 
-	// generator switches for ranges that meet a genuine defect of easegress on
-	// the unchanged tree (reported; see the header): off = not generated
+	// generator switch for the watch-break range: it met a genuine defect
+	// (C16.watch-reconnect.healthy-client-closed), repaired in /repo 1ae7e3f
 	c16GenWatchBreak = true
 )
 
@@ -501,6 +551,7 @@ type c16Model struct {
 	inherited  map[string]bool // filters taken over from the previous session by the current connection
 	amb        map[string]bool // filters that may or may not be subscribed (see header)
 	ever       map[string]bool
+	everLo     map[string]bool // filters the id ever asked for with QoS0
 }
 
 func (m *c16Model) connack(clean bool, storeLossy bool) (restored bool) {
@@ -854,6 +905,7 @@ type c16H struct {
 	live    int
 	liveNames map[string]bool
 	takeovers, restores int
+	clOf      map[int]*Client // connection id -> broker-side Client, as seen in b.clients at quiescent points
 	intr      map[int]string // connection id -> name of a refused connection attempt
 	watchKill bool           // the contested id's session key was missing when the delete watch was re-established: its connection may be closed
 }
@@ -1063,7 +1115,11 @@ func (h *c16H) waitFor(c *c16Cli, what string, cond func() bool) bool {
 	for !cond() {
 		// a superseded connection gets no answers any more (its write loop
 		// ended with the takeover) and is not closed by the broker either
-		if c.dead() || c.superseded || h.stop() {
+		// ... and so is a connection whose session was deleted through the admin
+		// handler or that the broker may have closed when it re-established the
+		// delete watch (Client.close ends the write loop, queued answers are lost,
+		// the TCP connection stays until the client's next packet)
+		if c.dead() || c.superseded || c.mayClose || h.closedAtWatch(c) || h.stop() {
 			return cond()
 		}
 		ch := c.note
@@ -1071,6 +1127,11 @@ func (h *c16H) waitFor(c *c16Cli, what string, cond func() bool) bool {
 		if left <= 0 {
 			h.noResponse(c, what)
 			return false
+		}
+		if h.st.breaks > 0 && left > 10*time.Second {
+			// nobody tells the client that the broker closed its Client object
+			// when it re-established the watch: look again now and then
+			left = 10*time.Second + c.tick
 		}
 		t := time.NewTimer(left)
 		select {
@@ -1081,6 +1142,17 @@ func (h *c16H) waitFor(c *c16Cli, what string, cond func() bool) bool {
 		h.r.Yield("c16.wake")
 	}
 	return true
+}
+
+// closedAtWatch: the delete watch broke during this run and the broker-side
+// Client of this connection is marked disconnected (white box): no answers any
+// more. Whether the broker was entitled to close it is judged elsewhere.
+func (h *c16H) closedAtWatch(c *c16Cli) bool {
+	if h.st == nil || h.st.breaks == 0 {
+		return false
+	}
+	cl := h.clOf[c.cid]
+	return cl != nil && cl.statusFlag == Disconnected
 }
 
 // waitH waits on the harness-wide notification channel.
@@ -1544,6 +1616,17 @@ func (h *c16H) doStep(c *c16Cli, s c16Step) bool {
 			p = up
 		}
 		c.inflight[id] = &c16Op{op: s.Op, filters: filters, qos: q, qoss: qoss}
+		if s.Op == "sub" && c.idx >= 0 {
+			for i, f := range filters {
+				fq := q
+				if i < len(qoss) {
+					fq = qoss[i]
+				}
+				if fq == 0 {
+					h.model.everLo[f] = true
+				}
+			}
+		}
 		h.logf("%s: %s %v qos%d%v id=%d", c.name, s.Op, filters, q, qoss, id)
 		if err := c.send(p); err != nil {
 			h.logf("%s: write failed: %v", c.name, err)
@@ -1860,6 +1943,7 @@ func (h *c16H) adminOthers(j int, a c16Adm) {
 			if k < len(h.bys) {
 				id = h.bys[k].id
 				h.bys[k].mayClose = true
+				h.bys[k].bcast()
 			}
 		}
 		if id == "" || id == c16ID {
@@ -1894,6 +1978,12 @@ func (h *c16H) onPrefix(has func(id string) bool) {
 	for _, by := range h.bys {
 		if !has(by.id) {
 			by.mayClose = true
+			by.bcast()
+		}
+	}
+	if !x {
+		for _, c := range h.clis {
+			c.bcast()
 		}
 	}
 	h.logf("store: watch re-established, session keys listed (contested key present=%v)", x)
@@ -1948,6 +2038,11 @@ func (h *c16H) serve(conn net.Conn) {
 func (h *c16H) invariant() string {
 	if h.closing || h.b == nil {
 		return ""
+	}
+	for _, x := range h.b.clients {
+		if id := c16ConnID(x); id >= 0 && h.clOf[id] != x {
+			h.clOf[id] = x
+		}
 	}
 	cl := h.b.clients[c16ID]
 	if cl != nil && cl != h.lastCl {
@@ -2491,10 +2586,14 @@ func (h *c16H) final() {
 			}
 		}
 		if lo && hi {
+			// an inherited filter counts only if the id never asked for it with
+			// QoS0: otherwise an older snapshot of the session (the store lags
+			// behind the acknowledgements: known findings *.store-lag) may
+			// legitimately carry the other QoS
 			must1 := map[string]string{}
 			for _, t := range c16Topics {
 				for _, f := range m.firm() {
-					if m.subs[f] >= 1 && c16Match(f, t) {
+					if m.subs[f] >= 1 && c16Match(f, t) && !(m.inherited[f] && m.everLo[f]) {
 						must1[t] = f
 					}
 				}
@@ -2510,7 +2609,7 @@ func (h *c16H) final() {
 				if f := must1[t]; f != "" && S.recv[pl1[t]] == 0 {
 					cls := "C16.subscription-qos-lost"
 					if m.inherited[f] {
-						cls = "C16.reconnect.subscription-qos-not-restored" + lag()
+						cls = "C16.reconnect.subscription-qos-not-restored"
 					}
 					r.Violate(cls, "QoS1 probe %s on %q was not delivered to the surviving connection although it holds %q subscribed with QoS%d (inherited=%v; model %v; its session object has %v). %s\n%s",
 						pl1[t], t, f, m.subs[f], m.inherited[f], m2s(m.subs), sessTopics(), ctx(), h.history())
@@ -2753,8 +2852,8 @@ func c16Exec(r *sim.Run, sci interface{}) {
 	if c16ID != c16IDs[0] {
 		r.Probe("c16.client_id_shape")
 	}
-	h := &c16H{r: r, sc: sc, byConn: map[int]*c16Cli{}, srv: map[int]*c16Srv{}, note: make(chan struct{}), liveNames: map[string]bool{}, intr: map[int]string{}}
-	h.model = c16Model{subs: map[string]byte{}, inherited: map[string]bool{}, amb: map[string]bool{}, ever: map[string]bool{}}
+	h := &c16H{r: r, sc: sc, byConn: map[int]*c16Cli{}, srv: map[int]*c16Srv{}, note: make(chan struct{}), liveNames: map[string]bool{}, intr: map[int]string{}, clOf: map[int]*Client{}}
+	h.model = c16Model{subs: map[string]byte{}, inherited: map[string]bool{}, amb: map[string]bool{}, ever: map[string]bool{}, everLo: map[string]bool{}}
 	h.n = simnet.New()
 	if sc.BufSize > 0 {
 		h.n.BufferSize = sc.BufSize
@@ -3025,12 +3124,13 @@ func TestVerifC16(t *testing.T) {
 		Rule: "scenario = 1-4 scripted connections of one contested client id (clean flag, keep-alive, subscribe/unsubscribe/ping steps with gaps, end kind " +
 			"disconnect/close/reset/silent/stall/late-ping/stay at a drawn instant, per-connection segmentation and latency), 0-2 bystander ids on the same filters, " +
 			"publishes through the HTTP endpoint, storage latency/error plan, socket buffer size, optional admin delete; a recipe family stalls a QoS1 subscriber on a tiny buffer before a late takeover; " +
+			"about half of the runs add ordinary configurations/inputs: client id shapes, ids extending the contested id, topic cache size, non-binding connection cap and rate limits, pass-through pipelines (Connect authenticates) with latency, MQTT 3.1, credentials, will, per-filter QoS, client publishes, refused connection attempts with the contested id, admin deletes of other ids, delete-watch breaks, a QoS1 burst to a paused survivor; " +
 			"non-trivial = at least one takeover of a not yet torn down connection or a clean=0 reconnect that inherits subscriptions; " +
 			"distinct = distinct (per connection clean/end/steps/teardown position relative to the survivor's handshake/restored-from-store, final model, ambiguous set, bystanders) signatures",
 		Real: []string{"pkg/object/mqttproxy Broker (newBroker, handleConn, setSession, deleteSession, watchDelete, removeClient, sendMsgToClient, httpTopicsPublishHandler, httpDeleteSessionHandler)",
 			"Client (readLoop, writeLoop, closeAndDelSession, close, process*)", "SessionManager, Session (incl. resend ticker on the virtual clock)", "TopicManager", "paho packets codec"},
 		Stub: []string{"storage -> c16Store (map, etcd-like delete watch, optional latency/errors)", "TCP -> simnet (netshim in broker.go)", "accept loop: harness listener calling the real Broker.handleConn under recover() (Broker.run idles on a port nobody dials)",
-			"MQTT clients: raw packet scripts", "no pipelines / MuxMapper", "sync, sync/atomic -> simsync/simatomic (gates); selects determinised; gates at go statements; time -> simtime in session.go/broker.go"},
+			"MQTT clients: raw packet scripts", "pipelines: stub MuxMapper (pass-through handlers with latency, Connect checks the password)", "sync, sync/atomic -> simsync/simatomic (gates); selects determinised; gates at go statements; time -> simtime in session.go/broker.go"},
 		Assumptions: []string{
 			"operations whose acknowledgement was not read while their connection was current make their filters ambiguous (neither required nor forbidden)",
 			"after an injected storage error all filters of the contested id are ambiguous at the next reconnect",
@@ -3039,7 +3139,10 @@ func TestVerifC16(t *testing.T) {
 			"runs with storage latency classify lost/stale inherited subscriptions as *.store-lag; C16.stored-session-stale is decided by elimination",
 			"QoS1 publishes only when all subscriptions are QoS1; QoS2, handshake aborts, overlapping CONNECTs of one id, watch breakage not generated",
 			"admin delete asserted only if the session key existed and the delete succeeded; TCP closure required after the client's next packet",
-			"CONNACK session-present flag and SUBACK return codes not checked",
+			"CONNACK session-present flag (probe only) and SUBACK return codes not checked",
+			"refused connection attempts (bad auth/protocol/first packet) are not takeovers; an id whose session key is missing when the delete watch is re-established, and a bystander deleted by an admin request, are not judged",
+			"QoS1 probe round in mixed-QoS sessions requires delivery only through filters subscribed with QoS>=1 (inherited ones only if never asked for with QoS0); burst check only in all-QoS1 runs with an acknowledging survivor, link latency capped at 5 ms there",
+			"maxAllowedConnection / rate limits are only set to values that never bind; binding caps, empty client id, two brokers on one store, admin delete of the contested id racing scripted connects are not generated",
 		},
 	})
 }
